@@ -9,6 +9,9 @@
 //	                                       query point are spelled -0.0
 //	pt <tag> <xhex> <yhex> <polygonal>     one point
 //	recv <tag> <geom> | <polygonal>        MultiPoint/LineString/MultiLineString/Polygon receiver
+//	cc <tag> <rounds> <sub> <lo> <hi> <polygonal> | <lo> <hi> <polygonal> | ...
+//	                                       concurrent callers: one goroutine per part asks its own grid
+//	                                       <rounds> times, all at the same time (see concurrentRun)
 package main
 
 import (
@@ -16,7 +19,10 @@ import (
 	"fmt"
 	"math"
 	"os"
+	"runtime"
 	"strings"
+	"sync"
+	"sync/atomic"
 
 	"github.com/ctessum/geom"
 
@@ -540,6 +546,141 @@ func histories(r *vproto.Rng, n int) {
 	}
 }
 
+// ---- concurrent callers ----
+//
+// Point.Within is a function of the point and the polygon; what other goroutines ask at the same time must
+// not matter. A cc line carries K unrelated parts (polygonal + own query grid). The first ring of every
+// polygon of every part is written SHORT on the line and subdivided by both sides (harness here, Lean driver
+// there: `subdivide`) into sub pieces per edge, so that a call spends most of its time in a long first ring
+// and the later rings (holes, islands, skipped rings, second members) are visited late.
+
+type ccPart struct {
+	lo, hi int
+	g      geom.Geom
+}
+
+func emitCC(tag string, rounds, sub int, parts []ccPart) {
+	var b strings.Builder
+	fmt.Fprintf(&b, "cc %s %d %d", tag, rounds, sub)
+	for i, p := range parts {
+		if i > 0 {
+			b.WriteString(" |")
+		}
+		fmt.Fprintf(&b, " %d %d %s", p.lo, p.hi, vproto.GeomToks(p.g))
+	}
+	fmt.Fprintln(w, b.String())
+}
+
+// subdivide: every edge of the ring (cyclically: the edge from the last vertex back to the first included)
+// cut into sub equal pieces; the result has len(rg)*sub vertices. Exact for (half-)integer coordinates of
+// small magnitude and sub a power of two. Mirrors GeomV.C02.subdivide.
+func subdivide(rg ring, sub int) ring {
+	if sub <= 1 || len(rg) == 0 {
+		return rg
+	}
+	o := make(ring, 0, len(rg)*sub)
+	for i, a := range rg {
+		b := rg[(i+1)%len(rg)]
+		for k := 0; k < sub; k++ {
+			o = append(o, pt(a.X+(b.X-a.X)*float64(k)/float64(sub), a.Y+(b.Y-a.Y)*float64(k)/float64(sub)))
+		}
+	}
+	return o
+}
+
+func subdividePolygonal(g geom.Geom, sub int) geom.Polygonal {
+	one := func(p geom.Polygon) geom.Polygon {
+		o := make(geom.Polygon, len(p))
+		copy(o, p)
+		if len(o) > 0 {
+			o[0] = geom.Path(subdivide(o[0], sub))
+		}
+		return o
+	}
+	switch t := g.(type) {
+	case geom.Polygon:
+		return one(t)
+	case geom.MultiPolygon:
+		o := make(geom.MultiPolygon, len(t))
+		for i, p := range t {
+			o[i] = one(p)
+		}
+		return o
+	}
+	return g.(geom.Polygonal)
+}
+
+func translate(p geom.Polygon, d float64) geom.Polygon {
+	return mapPoly(p, func(v geom.Point) geom.Point { return pt(v.X+d, v.Y+d) })
+}
+
+// ccPolygon: a big first ring around [0,4]^2 (or an arbitrary one) followed by 1-3 small rings inside
+func ccPolygon(r *vproto.Rng) geom.Polygon {
+	var outer ring
+	switch r.Intn(5) {
+	case 0: // arbitrary (bow-ties, slivers)
+		outer = gridRing(r, 4+r.Intn(3), 6, 1)
+	case 1: // big triangle
+		outer = ring{pt(float64(-1-r.Intn(2)), float64(-1-r.Intn(2))), pt(float64(9+r.Intn(3)), float64(-1-r.Intn(2))), pt(float64(-1-r.Intn(2)), float64(9+r.Intn(3)))}
+	default:
+		outer = ring{pt(float64(-1-r.Intn(2)), float64(-1-r.Intn(2))), pt(float64(5+r.Intn(2)), float64(-1-r.Intn(2))),
+			pt(float64(5+r.Intn(2)), float64(5+r.Intn(2))), pt(float64(-1-r.Intn(2)), float64(5+r.Intn(2)))}
+	}
+	if r.Bool() {
+		outer = reversed(outer)
+	}
+	rs := []ring{outer}
+	for k := 1 + r.Intn(3); k > 0; k-- {
+		n := 3 + r.Intn(3)
+		if r.Chance(0.1) {
+			n = r.Intn(3)
+		}
+		den := 1.0
+		if r.Chance(0.3) {
+			den = 2
+		}
+		rs = append(rs, spell(r, gridRing(r, n, int(4*den), den)))
+	}
+	return poly(rs...)
+}
+
+func concurrent(r *vproto.Rng, n, rounds int) {
+	// hand-picked: square with a hole, an unclosed island in the hole and a clockwise hole; a second member
+	base := poly(ring{pt(-1, -1), pt(6, -1), pt(6, 6), pt(-1, 6)},
+		ring{pt(0, 0), pt(3, 0), pt(3, 3), pt(0, 3), pt(0, 0)},
+		ring{pt(1, 1), pt(2, 1), pt(2, 2), pt(1, 2)},
+		ring{pt(4, 1), pt(4, 3), pt(5, 3), pt(5, 1), pt(4, 1)})
+	emitCC("corpus", rounds, 128, []ccPart{
+		{-2, 12, base},
+		{38, 52, geom.MultiPolygon{translate(base, 20), translate(poly(ring{pt(1, 1), pt(2, 1), pt(2, 2), pt(1, 2), pt(1, 1)}), 20)}},
+		{78, 92, translate(base, 40)},
+		{-2, 12, geom.MultiPolygon{base, poly(ring{pt(0, 0), pt(4, 0), pt(0, 4)})}},
+	})
+	for i := 0; i < n; i++ {
+		k := 2 + r.Intn(4)
+		parts := make([]ccPart, k)
+		apart := r.Chance(0.7) // parts far from each other / all in the same place
+		for j := range parts {
+			d := 0
+			if apart {
+				d = 20 * j
+			}
+			var g geom.Geom
+			switch r.Intn(4) {
+			case 0:
+				g = geom.MultiPolygon{translate(ccPolygon(r), float64(d)), translate(randPolygon(r, 4, 1), float64(d))}
+			case 1:
+				g = geom.MultiPolygon{translate(randPolygon(r, 4, 1), float64(d)), translate(ccPolygon(r), float64(d)), translate(ccPolygon(r), float64(d))}
+			default:
+				g = translate(ccPolygon(r), float64(d))
+			}
+			parts[j] = ccPart{2*d - 2, 2*d + 10, g}
+		}
+		sub := []int{16, 64, 128, 256}[r.Intn(4)]
+		emitCC(fmt.Sprintf("k%d", k), rounds, sub, parts)
+	}
+}
+
 func receivers(r *vproto.Rng, n int) {
 	for i := 0; i < n; i++ {
 		var pg geom.Geom
@@ -598,6 +739,7 @@ func gen(seed uint64, tier string) {
 		floatCases(r, 30000, floatScales)
 		receivers(r, 15000)
 		histories(r, 5000)
+		concurrent(r, 40, 40)
 	} else {
 		exhaustive("tri", 3, 2, true)
 		exhaustive("tri3", 3, 3, false)
@@ -609,6 +751,7 @@ func gen(seed uint64, tier string) {
 		floatCases(r, 5000, floatScales)
 		receivers(r, 3000)
 		histories(r, 800)
+		concurrent(r, 10, 30)
 	}
 	w.Flush()
 }
@@ -814,6 +957,81 @@ func history(flav string, g1, g2 geom.Geom, run func(geom.Polygonal) string) str
 	return out
 }
 
+// concurrentRun: one goroutine per part asks its own grid `rounds` times; all start together. Meanwhile one
+// more goroutine per part keeps calling Polygon.Area on that part's polygons (Area reaches pointInPolygon
+// too) and two goroutines keep asking an unrelated far-away point against a small triangle. Per part the
+// answer string of the first round is reported; if a later round of the same goroutine differs, both strings
+// are reported as "first/other" (the judge holds BOTH against the Spec).
+func concurrentRun(rounds int, pgs []geom.Polygonal, runs []func(geom.Polygonal) string) string {
+	// at least 8 OS threads run goroutines, so that also on a machine with fewer cores (or a CPU affinity
+	// mask) calls are interleaved by the OS scheduler at arbitrary instructions, not only at the Go
+	// scheduler's 10 ms preemption points
+	if old := runtime.GOMAXPROCS(0); old < 8 {
+		runtime.GOMAXPROCS(8)
+		defer runtime.GOMAXPROCS(old)
+	}
+	var stop int32
+	var hammers, workers sync.WaitGroup
+	start := make(chan struct{})
+	far := geom.Point{X: -1e6, Y: -1e6}
+	tri := geom.Polygon{{{X: -1e6 - 1, Y: -1e6 - 1}, {X: -1e6 + 1, Y: -1e6 - 1}, {X: -1e6, Y: -1e6 + 1}}}
+	for h := 0; h < 2; h++ {
+		hammers.Add(1)
+		go func() {
+			defer hammers.Done()
+			<-start
+			for atomic.LoadInt32(&stop) == 0 {
+				vproto.Safe(func() { far.Within(tri) })
+			}
+		}()
+	}
+	for _, pg := range pgs {
+		var ps []geom.Polygon
+		switch t := pg.(type) {
+		case geom.Polygon:
+			ps = []geom.Polygon{t}
+		case geom.MultiPolygon:
+			ps = t
+		}
+		hammers.Add(1)
+		go func() {
+			defer hammers.Done()
+			<-start
+			for atomic.LoadInt32(&stop) == 0 {
+				for _, p := range ps {
+					vproto.Safe(func() { p.Area() })
+				}
+			}
+		}()
+	}
+	res := make([]string, len(pgs))
+	for k := range pgs {
+		workers.Add(1)
+		go func(k int) {
+			defer workers.Done()
+			<-start
+			first, other := "", ""
+			for round := 0; round < rounds; round++ {
+				s := runs[k](pgs[k])
+				if round == 0 {
+					first = s
+				} else if s != first && other == "" {
+					other = s
+				}
+			}
+			res[k] = first
+			if other != "" {
+				res[k] = first + "/" + other
+			}
+		}(k)
+	}
+	close(start)
+	workers.Wait()
+	atomic.StoreInt32(&stop, 1)
+	hammers.Wait()
+	return strings.Join(res, " ")
+}
+
 func impl() {
 	vproto.Lines(func(line string, out *bufio.Writer) {
 		defer out.Flush()
@@ -845,6 +1063,29 @@ func impl() {
 				}
 				g2 := p.Geom()
 				res = history(flav, g1, g2, gridRun(lo, hi, func(i int) float64 { return float64(i) / 2 }))
+			case "cc":
+				p.Next()
+				rounds, sub := p.Int(), p.Int()
+				var pgs []geom.Polygonal
+				var runs []func(geom.Polygonal) string
+				var snaps []*variant
+				for {
+					lo, hi := p.Int(), p.Int()
+					pg := subdividePolygonal(p.Geom(), sub)
+					v := &variant{name: "cc", pg: pg}
+					v.snapshot()
+					pgs, snaps = append(pgs, pg), append(snaps, v)
+					runs = append(runs, gridRun(lo, hi, func(i int) float64 { return float64(i) / 2 }))
+					if p.Done() || p.Next() != "|" {
+						break
+					}
+				}
+				res = concurrentRun(rounds, pgs, runs)
+				for k, v := range snaps {
+					if c := v.changed(); c != "" {
+						res = fmt.Sprintf("argument-modified variant=cc part=%d where=%s", k, c)
+					}
+				}
 			case "pt":
 				p.Next()
 				q := p.Pt()
